@@ -14,7 +14,6 @@ Oracle (independent of armi): the generator's own column compared with what came
 of DESIGN.md C05 (None~None, NaN~None for reals, sequence~array of the same shape, empty entry~None, numbers equal
 by value and of the same kind for homogeneous columns, dict keys minus NaN-valued, flags = same set of names).
 """
-import math
 import os
 import random
 
@@ -53,6 +52,9 @@ FLOORS = {
         "hook:armi.bookkeeping.db.database.replaceNonesWithNonsense": 100, "hook:armi.bookkeeping.db.database.replaceNonsenseWithNones": 60,
         "hook:JaggedArray.unpack": 200, "hook:FlagSerializer._remapBits": 100, "hook:Database._writeAttrs": 500, "hook:Database._resolveAttrs": 1500,
         "hook:Database.writeToDB": 60, "hook:Database.load": 40,
+        # faithful non-trivial round trips per family: a tree that refuses (nearly) everything must not be reported as held
+        "faithful/scalar": 120, "faithful/array-equal": 100, "faithful/array-ragged": 100, "faithful/array-empty": 40, "faithful/dict": 15,
+        "faithful/flags": 150, "faithful/nested": 8, "faithful/str": 25,
     },
     "thorough": {
         "compare.unit": 20000, "compare.full": 600, "compare.flags": 2000, "attr.side-channel": 10, "write.rejected": 3000,
@@ -60,6 +62,8 @@ FLOORS = {
         "hook:armi.bookkeeping.db.database.replaceNonesWithNonsense": 1500, "hook:armi.bookkeeping.db.database.replaceNonsenseWithNones": 800,
         "hook:JaggedArray.unpack": 3000, "hook:FlagSerializer._remapBits": 2000, "hook:Database._writeAttrs": 8000, "hook:Database._resolveAttrs": 20000,
         "hook:Database.writeToDB": 600, "hook:Database.load": 400,
+        "faithful/scalar": 1800, "faithful/array-equal": 1500, "faithful/array-ragged": 1500, "faithful/array-empty": 600, "faithful/dict": 200,
+        "faithful/flags": 2000, "faithful/nested": 200, "faithful/str": 400,
     },
 }
 
@@ -730,6 +734,8 @@ def judge(rec, path, col, meta, outcome, witness):
     for k, v in notes.items():
         rec.add("normalisation " + k, v)
     if not D:
+        if any(x is not None for x in col):
+            rec.hit("faithful/" + meta["family"])
         return "same"
     top = D[0]
     if top[0] in FORM_ONLY and not meta["judge_form"]:
@@ -1067,6 +1073,8 @@ def judge_flags(rec, col, meta, outcome, witness):
                           "entry %d: flag set %s came back as %s%s (reader order: %s)" % (i, want[:12], names[:12], " + undefined bits" if stray else "", meta["order"]),
                           dict(w, entry=i, written=want, read=names))
             return "diff"
+    if any(meta["on"]):
+        rec.hit("faithful/flags")
     return "same"
 
 
